@@ -153,6 +153,8 @@ def run(tier, seed):
         chk.add_kernel(run_kernel(k, tier))
     ok, sites, failing = frame.rule_flow_api()
     chk.add_rule("C03.S.no_backend_code_before_graph", ok, sites, failing)
+    ok, sites, failing = frame.rule_dispatch()
+    chk.add_rule("C03.S.dispatch_complete", ok, sites, failing)
     n = 24 if tier == "quick" else 240
     res = [x for r in harness.pmap(_work, [(seed, i) for i in range(n)]) for x in r]
     res += must_reject()
